@@ -44,11 +44,24 @@ in no file inside a mount. Signatures are outside-mount:<call class>:<where>:<pa
 ':mount-<spelling class>' appended when the drive the path addresses is mounted under a spelling other
 than the plain absolute path; the path shape of a restart is 'suspend' / 'resume'.
 
-Found on the unchanged tree by the wider configuration (both reproduced by hand, see the report):
-  * KILL on a drive mounted by a relative host path removes <root>/<root>/<name> (disk.py:kill joins
+Found by the wider configuration and since repaired in /repo (reverse patches under mutants/):
+  * f9d9b8f7: KILL on a drive mounted by a relative host path removed <root>/<root>/<name> (disk.py:kill joined
     native_dir onto names that _get_dirs_files already made complete): outside-mount:remove:*:mount-relative
-  * NAME "\\" AS ... / RMDIR "\\" hand the mount point itself to os.rename / os.rmdir; through a symbolic
-    link NAME moves the link out of its directory: outside-mount:rename|rmdir:mount-point-symlink
+  * fdc4ab44: NAME "\\" AS ... / RMDIR "\\" handed the mount point itself to os.rename / os.rmdir; through a
+    symbolic link NAME moved the link out of its directory: outside-mount:rename|rmdir:mount-point-symlink
+
+C28 histories: half of them also move about (CHDIR / MKDIR / RMDIR with relative, '..' and absolute paths,
+in any capitalisation) in a family of directories on one level whose names are prefixes of one another
+(AB, ABC, ABCD, AB.D; also the siblings of the start directory). The judge keeps a model of the drive's
+working directory (host names from the root; changed only by a CHDIR that reports no error, to the
+directory its path stands for) and every name is judged in the model's directory. After every directory
+statement, failed or not, and after a sample of the others, BASIC must show the model's directory (first
+line of a FILES that matches nothing) and, for a sample, a probe file created under a bare name must land
+in it. Legal 8.3 directory names: MKDIR creates exactly the upper-case host directory, RMDIR removes
+exactly the one empty host directory that stands for the name, CHDIR into an existing one succeeds.
+While the property does not say where the working directory is (it was removed from BASIC or by the other
+party, a CHDIR through ambiguous names succeeded) only the monitor and crash checks run, until an absolute
+CHDIR succeeds. RMDIR of the working directory or a directory above it is not judged.
 
 C28 oracle: the live host directory is the ground truth (listed by the harness between
 statements, so files that 'another party' made vanish or appear are simply part of it). For a
